@@ -83,6 +83,7 @@ def items(tier, seed):
         for opt in ("optimal", "greedy"):
             its.append({"entry": "sized", "first": first, "optimize": opt, "tier": tier})
     its.append({"entry": "objopt", "tier": tier})
+    its.append({"entry": "viaopt", "tier": tier})
     return its
 
 
@@ -164,6 +165,74 @@ def run_objopt(item, rec):
         out = symx.explore(harness, max_paths=30000, deadline_s=(60 if item["tier"] == "quick" else 600))
         rec.add_explore(out)
         rec.sample(dict(entry="optimize= optimizer OBJECT (live object mutated in place / fresh objects)", sequences=out.paths))
+    finally:
+        if saved is None:
+            I.__dict__.pop("hash", None)
+        else:
+            I.hash = saved
+        clear_all()
+    rec.validated += 1
+
+
+def scale2_in(x):
+    return x * 2
+
+
+def scale3_in(x):
+    return x * 3
+
+
+def ident_out(x):
+    return x
+
+
+def run_viaopt(item, rec):
+    """the via=(convert_in, convert_out) option given as a tuple, as a fresh list, or as one live list edited in place
+    (an unhashable option value must not be keyed by anything but its contents)"""
+    import cotengra as ctg
+
+    I = importlib.import_module("cotengra.interface")
+    saved = I.__dict__.get("hash", None)
+    I.hash = structural
+    inputs = (("a", "b"), ("b", "c"), ("c", "d"))
+    output = ("a", "d")
+    size = {"a": 2, "b": 3, "c": 2, "d": 2}
+    sinputs = tuple("".join(t) for t in inputs)
+    fns = {2: scale2_in, 3: scale3_in}
+    try:
+
+        def harness(ctx):
+            clear_all()
+            live = [scale2_in, ident_out]
+            seq = []
+            for k in range(2 if item["tier"] == "quick" else 3):
+                scale = (2, 3)[symx.choose(f"scale{k}", 2)]
+                how = ("tuple", "fresh-list", "live-list")[symx.choose(f"how{k}", 3)]
+                cache = bool(symx.choose(f"cache{k}", 2))
+                ep = ("array_contract_expression", "einsum_expression")[symx.choose(f"ep{k}", 2)]
+                seq.append([scale, how, int(cache), ep])
+                if how == "tuple":
+                    via = (fns[scale], ident_out)
+                elif how == "fresh-list":
+                    via = [fns[scale], ident_out]
+                else:
+                    live[0] = fns[scale]  # edited in place between calls
+                    via = live
+                arrays = symarr.sym_arrays(sinputs, size, prefix=f"v{k}x")
+                case = dict(entry="viaopt", seq=[list(x) for x in seq])
+                if ep == "array_contract_expression":
+                    expr = ctg.array_contract_expression(inputs, output, size_dict=dict(size), via=via, cache=cache)
+                else:
+                    expr = ctg.einsum_expression(",".join(sinputs) + "->" + "".join(output), *[a.shape for a in arrays], via=via, cache=cache)
+                del via
+                val = expr(*arrays)
+                want = symarr.dense_einsum(sinputs, "".join(output), size, [a * scale for a in arrays])
+                bad = symarr.diff_formula(symarr.as_obj_array(val), want)
+                rec.refute(ctx, bad, f"call {k}: value with via= conversion functions", lambda m, case=case: dict(case=case, call=k, signature=["C13v", str(seq)]))
+
+        out = symx.explore(harness, max_paths=30000, deadline_s=(60 if item["tier"] == "quick" else 600))
+        rec.add_explore(out)
+        rec.sample(dict(entry="via= option as tuple / fresh list / live list edited in place", sequences=out.paths))
     finally:
         if saved is None:
             I.__dict__.pop("hash", None)
@@ -305,6 +374,8 @@ def run_item(item, rec):
         return run_sized(item, rec)
     if item["entry"] == "objopt":
         return run_objopt(item, rec)
+    if item["entry"] == "viaopt":
+        return run_viaopt(item, rec)
     I = importlib.import_module("cotengra.interface")
     P = pool()
     ep, first, tier = item["entry"], item["first"], item["tier"]
@@ -406,6 +477,35 @@ def replay(v):
     """re-run the sequence on the real code (real hash), float arrays"""
     warnings.simplefilter("ignore")
     case = v["case"]
+    if case["entry"] == "viaopt":
+        import cotengra as ctg
+
+        inputs = (("a", "b"), ("b", "c"), ("c", "d"))
+        output = ("a", "d")
+        size = {"a": 2, "b": 3, "c": 2, "d": 2}
+        fns = {2: scale2_in, 3: scale3_in}
+        clear_all()
+        live = [scale2_in, ident_out]
+        rng = np.random.default_rng(5)
+        for k, (scale, how, cache, ep) in enumerate(case["seq"]):
+            if how == "tuple":
+                via = (fns[scale], ident_out)
+            elif how == "fresh-list":
+                via = [fns[scale], ident_out]
+            else:
+                live[0] = fns[scale]
+                via = live
+            arrs = [rng.uniform(0.5, 1.5, size=[size[c] for c in t]) for t in inputs]
+            if ep == "array_contract_expression":
+                expr = ctg.array_contract_expression(inputs, output, size_dict=dict(size), via=via, cache=bool(cache))
+            else:
+                expr = ctg.einsum_expression("ab,bc,cd->ad", *[a.shape for a in arrs], via=via, cache=bool(cache))
+            del via
+            got = expr(*arrs)
+            want = np.einsum("ab,bc,cd->ad", *[a * scale for a in arrs])
+            if not np.allclose(got, want):
+                return True, f"via= option, sequence {case['seq']}: call {k} (input conversion x{scale}, given as {how}) used the conversion functions of an earlier call (max deviation {np.max(np.abs(got - want)):.3g})"
+        return False, "every call used its own conversion functions"
     if case["entry"] == "objopt":
         import cotengra as ctg
 
